@@ -15,6 +15,7 @@ import json
 import os
 import random
 import shutil
+import subprocess
 
 from common import (Outcome, ToolError, VERIF, cfg, log, run_harness, run_tlc, sample, seed, workdir, build_harness)
 import disk2
@@ -242,6 +243,72 @@ def corruption_states(final, rng, quick, base, keep_fn):
         for cut in (a, (a + b) // 2):
             if 0 < cut < n:
                 out.append((cname, "trunc", cut, keep_fn({"m.mv2": data[:cut]})))
+    out += structured_edits(data, n, toc_off, rng, quick, base, keep_fn)
+    return out
+
+
+U64_EDGE = (0, 1, (1 << 31) - 1, 1 << 32, (1 << 63) - 1, 1 << 63, (1 << 64) - 1)
+
+
+def reseal(img, base):
+    """An edited image made self-consistent again (TOC checksum, footer hash, header copy) by `mvh reseal`, so that the edit
+    reaches the decoders instead of being stopped by a checksum: an adversarial file (C22), not a corruption (C20)."""
+    p = os.path.join(base, "reseal-%d.tmp" % os.getpid())
+    with open(p, "wb") as f:
+        f.write(img)
+    r = subprocess.run([build_harness(), "reseal", p], stdout=subprocess.PIPE, stderr=subprocess.PIPE)
+    out = open(p, "rb").read() if r.returncode == 0 else None
+    os.remove(p)
+    return out
+
+
+def structured_edits(data, n, toc_off, rng, quick, base, keep_fn):
+    """C22: edits of the length fields the layout identifies - the footer's toc_len around every boundary it is compared
+    with, the header's footer_offset, and the bincode length prefixes inside the TOC (string lengths in front of every URI,
+    the vector lengths at the start) - each as is and re-sealed."""
+    out = []
+    pos = n - 56
+    toc_a = min(toc_off, pos)
+
+    def put(img, cname, kind, off):
+        out.append((cname, kind, off, keep_fn({"m.mv2": bytes(img)})))
+        rs = reseal(bytes(img), base)
+        if rs is not None and rs != bytes(img):
+            out.append((cname, kind + "-resealed", off, keep_fn({"m.mv2": rs})))
+
+    vals = [1, 31, 32, pos - toc_a - 1, pos - toc_a + 1, pos - 1, pos, pos + 1, pos + 28, n - 1, n, n + 1] + list(U64_EDGE)
+    if quick:
+        vals = [vals[i] for i in (0, 3, 4, 6, 7, 8, 10, 11)] + [1 << 32, 1 << 63, (1 << 64) - 1]
+    for v in vals:
+        if 0 <= v < (1 << 64):
+            img = bytearray(data)
+            img[pos + 8:pos + 16] = v.to_bytes(8, "little")
+            out.append(("footer", "len-edit", v % (1 << 31), keep_fn({"m.mv2": bytes(img)})))
+    for v in (0, 4095, 4096, toc_a - 1, toc_a + 1, pos, n, n + 1, 1 << 63, (1 << 64) - 1):
+        img = bytearray(data)
+        img[8:16] = v.to_bytes(8, "little")
+        out.append(("header.footer_offset", "len-edit", v % (1 << 31), keep_fn({"m.mv2": bytes(img)})))
+    # bincode length prefixes in the TOC (fixed-width little-endian u64): in front of every stored URI, and the three
+    # vector lengths at its start (segments, frames come right after toc_version)
+    spots = []
+    p = toc_a
+    while len(spots) < (3 if quick else 12):
+        p = data.find(b"mv2://", p, pos)
+        if p < 0:
+            break
+        if p - 8 >= toc_a:
+            spots.append(p - 8)
+        p += 6
+    spots += [toc_a + 8, toc_a + 16]
+    for sp in spots:
+        if sp + 8 > pos:
+            continue
+        old = int.from_bytes(data[sp:sp + 8], "little")
+        for v in ([old + 1, 1 << 40, 1 << 63, (1 << 64) - 1] if quick else [0, old - 1, old + 1, old + 4096, 1 << 31, 1 << 40, 1 << 62, 1 << 63, (1 << 64) - 1]):
+            if 0 <= v < (1 << 64) and v != old:
+                img = bytearray(data)
+                img[sp:sp + 8] = v.to_bytes(8, "little")
+                put(img, "toc", "len-edit", sp)
     return out
 
 
@@ -403,6 +470,7 @@ def engine(tier, only=None):
             seen_c.add((cname, ckind, dg))
             r = dict(results[dg])
             r.update({"ev": "corrupt", "run": 1, "cls": cname, "ckind": ckind, "off": off, "history": hname, "kind": "corrupt", "callname": "corrupt",
+                      "resealed": ckind.endswith("-resealed"),
                       "phase": cname, "variant": ckind, "at": off, "call": 0})
             r.pop("tag", None)
             r.pop("stage", None)
